@@ -24,6 +24,7 @@ def run(ctx: Ctx) -> None:
     ctx.rule('R-TERM-T2', 'recursion descends to a child of the parameter')
     ctx.rule('R-TERM-T3', 'no regex shape with exponential backtracking')
     ctx.rule('R-TERM-index', 'constant-index subscripts are guarded by a non-emptiness fact')
+    ctx.rule('R-TERM-none', 'values marko may return as None are tested before use')
     ctx.rule('R-PREFIX-P4', 'empty code lines carry no trailing spaces')
     ctx.rule('R-PREFIX-P6', 'rendered blocks are newline-terminated')
     ctx.rule('R-LOSSLESS-L5', 'no placeholder survives the word splitter')
@@ -32,6 +33,7 @@ def run(ctx: Ctx) -> None:
     ctx.run(term.check_recursion)
     ctx.run(term.check_regexes)
     ctx.run(term.check_subscripts)
+    ctx.run(term.check_optional_results)
     ctx.run(render.check_blank_line_hygiene)
     ctx.run(render.check_prefix, {"P6"})
     ctx.run(wrap.check_placeholders)
